@@ -1472,6 +1472,150 @@ def rule_count_prov(chk, eng):
 
 
 # ----------------------------------------------------------------------------
+# ----------------------------------------------------------------------------
+# rule 5b: bound provenance -- the count C loops over vs the extent the array was validated / allocated with
+# ----------------------------------------------------------------------------
+def _shape_roots(text):
+    """arrays whose shape/size/len the expression text is a function of"""
+    import re
+    roots = set(m.group(1) for m in re.finditer(r"([A-Za-z_][\w\.]*?)\.(?:shape|size)\b", text))
+    roots |= set(m.group(1) for m in re.finditer(r"\blen\(([A-Za-z_][\w\.]*)\)", text))
+    return roots
+
+
+def _norm_count(text):
+    import re
+    t = text.replace(" ", "")
+    t = re.sub(r"\blen\(([A-Za-z_][\w\.]*)\)", r"\1.shape[0]", t)
+    return t
+
+
+def rule_bound_prov(chk, eng):
+    import re
+    n = 0
+    merged = {}
+    ext_cache = {}
+    resolvers = {}
+    for s in eng.sites:
+        fn = pf.enclosing_func(s.node)
+        if fn is None:
+            continue
+        assigns = {}
+        for a in pf.walk_no_nested(fn):
+            if isinstance(a, ast.Assign) and len(a.targets) == 1 and isinstance(a.targets[0], ast.Name):
+                assigns.setdefault(a.targets[0].id, []).append(a.value)
+
+        def resolve(e, depth=0):
+            """replace single-assignment integer locals (n = X.shape[-2], ni = len(x)) by their definition"""
+            if isinstance(e, ast.Name) and len(assigns.get(e.id, ())) == 1 and depth < 4:
+                v = assigns[e.id][0]
+                if not isinstance(v, ast.Call) or pf.call_name(v) == "len":
+                    return resolve(v, depth + 1)
+            return pf.src(e)
+
+        fg = None
+        for c, al in s.pairs:
+            if c is None or al is None:
+                continue
+            mf, (h, name) = c
+            proto = eng.c.lookup(name, mf.handles.get(h))
+            if proto is None:
+                continue
+            key = (proto.rel, name)
+            if key not in ext_cache:
+                ext_cache[key] = ffi.extent_params(eng.c.tus[proto.rel], name)
+            ext = ext_cache[key]
+            if not ext:
+                continue
+            pnames = [pn for pn, _ in proto.params]
+            for pptr, pcnt in sorted(ext.items()):
+                i, j = pnames.index(pptr), pnames.index(pcnt)
+                if i >= len(al) or j >= len(al) or ".ctypes" not in al[i][1]:
+                    continue
+                subj = al[i][1].split(".ctypes")[0]
+                m_ = re.match(r"(?:ctypes\.)?c_\w+\((.*)\)$", al[j][1])
+                if not m_ or not re.match(r"^[A-Za-z_][\w\.]*$", subj):
+                    continue
+                try:
+                    cnt_txt = _norm_count(resolve(ast.parse(m_.group(1), mode="eval").body))
+                except SyntaxError:
+                    continue
+                if fg is None:
+                    if s.rel not in resolvers:
+                        resolvers[s.rel] = guards.Resolver(chk.tree.py(s.rel))
+                    fg = guards.FunctionGuards(fn, resolvers[s.rel])
+                cn = fg.cfg.stmt_of_expr(s.node)
+                if cn is None:
+                    continue
+                # extent facts of `subj`: node id -> extent text (None = allocated / re-bound in a form not modelled)
+                facts = {}
+                for nd in fg.cfg.nodes:
+                    a = nd.ast
+                    if nd.kind == "stmt" and isinstance(a, ast.Assign) and len(a.targets) == 1 \
+                            and pf.src(a.targets[0]) == subj:
+                        v = a.value
+                        if isinstance(v, ast.Call) and pf.call_name(v) in ("np.zeros", "np.empty", "np.ones") and v.args:
+                            sh = v.args[0]
+                            if isinstance(sh, (ast.Tuple, ast.List)):
+                                facts[nd.id] = _norm_count(resolve(sh.elts[0])) if len(sh.elts) == 1 else None
+                            elif isinstance(sh, ast.Name) and any(isinstance(x, (ast.Tuple, ast.List))
+                                                                  for x in assigns.get(sh.id, ())):
+                                facts[nd.id] = None
+                            elif isinstance(sh, ast.Attribute) and sh.attr == "shape":
+                                facts[nd.id] = None
+                            else:
+                                facts[nd.id] = _norm_count(resolve(sh))
+                        else:
+                            facts[nd.id] = None
+                for nid, ats in fg.atoms.items():
+                    for e, pos in ats:
+                        if not (isinstance(e, ast.Compare) and len(e.ops) == 1):
+                            continue
+                        op = type(e.ops[0]).__name__
+                        if not ((op == "Eq" and pos) or (op == "NotEq" and not pos)):
+                            continue
+                        for l, r in ((e.left, e.comparators[0]), (e.comparators[0], e.left)):
+                            lt = pf.src(l).replace(" ", "")
+                            if lt == subj + ".shape" and isinstance(r, (ast.Tuple, ast.List)) and len(r.elts) == 1:
+                                facts[nid] = _norm_count(resolve(r.elts[0]))
+                            elif lt in (subj + ".size", "len(%s)" % subj):
+                                facts[nid] = _norm_count(resolve(r))
+                if not facts or not fg.guaranteed(set(facts), [cn.id]):
+                    continue  # some path reaches the call without any extent fact: not this rule's business
+                n += 1
+                inst = "%s:%s %s: %s bounds %s" % (s.rel, s.func, name, pcnt, pptr)
+                own = {subj + ".size", subj + ".shape[0]"}
+                bad = []
+                for nid, etxt in sorted(facts.items()):
+                    if etxt is None or etxt == cnt_txt or cnt_txt in own:
+                        continue
+                    if cn.id not in fg.cfg.reachable(nid):
+                        continue
+                    # decidable only when both are functions of the shape of one and the same array
+                    if _shape_roots(etxt) and _shape_roots(etxt) == _shape_roots(cnt_txt):
+                        bad.append((fg.cfg.nodes[nid], etxt))
+                if not bad:
+                    chk.ok("bound-prov", inst)
+                    continue
+                nd0, etxt = bad[0]
+                merged.setdefault((s.rel, s.func, s.line, subj, pptr, pcnt, cnt_txt, etxt,
+                                   isinstance(nd0.ast, ast.Assign), getattr(nd0.ast, "lineno", "?")), []).append((name, inst))
+    for (rel_, func, line, subj, pptr, pcnt, cnt_txt, etxt, is_alloc, eline), items in sorted(merged.items()):
+        names = sorted({nm for nm, _ in items})
+        chk.violation(
+            "bound-prov", rel_, func, "count %s vs extent %s of %s" % (cnt_txt, etxt, subj), line,
+            "%s loop%s `for (i < %s)` over `%s[i]`; the call passes %s = %s, but on a path to the call `%s` was %s with "
+            "extent %s (line %s). Both are functions of the shape of %s and differ, so for an admissible rank the callee "
+            "runs past the array"
+            % (", ".join(names), "s" if len(names) == 1 else "", pcnt, pptr, pcnt, cnt_txt, subj,
+               "allocated" if is_alloc else "validated", etxt, eline, ", ".join(sorted(_shape_roots(etxt)))),
+            instance=items[0][1])
+        for _, inst in items[1:]:
+            chk.obligations.append(("bound-prov", core.norm_text(inst), False, True, "same call site"))
+    if n == 0:
+        raise core.AnalysisError("bound provenance: no (validated array, loop bound) pair found")
+
+
 def _analyse_own(chk):
     tree = chk.tree
     chk.rule("ffi", "ctypes call sites conform to the C prototypes (SysV landing slots, kinds, restype, callbacks)")
@@ -1505,6 +1649,9 @@ def _analyse_own(chk):
         chk.guard(rule_guards, box["eng"], prog)
         chk.rule("count-prov", "stride passed for a buffer allocated in the same function is one of its dimensions")
         chk.guard(rule_count_prov, box["eng"])
+        chk.rule("bound-prov", "the count C loops over equals the extent the array was validated / allocated with "
+                               "(decided when both are functions of one array's shape)")
+        chk.guard(rule_bound_prov, box["eng"])
     else:
         chk.errors.append("rule_guards: not run because the ctypes engine failed")
     chk.floor("ffi", 50, "half of the 103 ctypes call sites")
@@ -1515,6 +1662,7 @@ def _analyse_own(chk):
     chk.floor("dispatch", 12, "half of the multi-arm string ladders")
     chk.floor("expnt-guard", 1, "eval_feat_exp")
     chk.floor("guards", 204, "half of the 408 frozen guard signatures")
+    chk.floor("bound-prov", 5, "(validated array, loop bound) pairs")
     chk.floor("reject-mode", 10, "half of the mode x class combinations")
     chk.assumptions += [
         "x86-64 System V calling convention; ctypes without argtypes passes c_int/c_double/pointers as built",
@@ -1669,6 +1817,13 @@ def mutants(tree):
                "        for arr in [res, dres, X1]:\n            assert arr.flags.c_contiguous\n", "", expect="guards"),
         Mutant("guards: offset + nalpha <= stride weakened to nalpha <= stride", LC,
                "        assert offset + nalpha <= stride\n", "        assert nalpha <= stride\n", expect="guards"),
+        # ---- bound-prov
+        Mutant("bound: total row count passed for the per-spin sample count (RBFEvaluator)", XE,
+               "        n = X1.shape[-2]\n        for arr in [res, dres, X1]:", "        n = X1.size // self._nfeat\n        for arr in [res, dres, X1]:",
+               expect="bound-prov"),
+        Mutant("bound: half the list length passed while the sibling list is validated against the full length", PW,
+               "    ni = len(nlist_i)\n    assert len(nlist_i) == len(lmlist_i)", "    ni = nlist_i.size * 2\n    assert len(nlist_i) == len(lmlist_i)",
+               expect="bound-prov"),
         # ---- count-prov
         Mutant("count: global exponent count passed for a buffer sized by the local count", PL,
                "                ctypes.c_int(arg_g.size),\n                ctypes.c_int(nalpha),\n            )\n            return p, dp",
